@@ -37,12 +37,51 @@ def _stmts_mention(fn, path):
     return False
 
 
+def with_recorder_leaves(wr):
+    """Classifies the call sites of the user closure inside with_recorder (shared by C01.a and C02.a)."""
+    user_calls = []
+    for c in nonforeign_calls(wr):
+        if c.is_("FnOnce::call_once", "FnOnce<Args>::call_once"):
+            a = arg_syms(c)
+            root = strip_sym(a[0])
+            if sym_arg(root) is not None and sym_arg(root)[0] == 0:
+                user_calls.append((c, a))
+
+    def is_get(d):
+        return sym_is_call(d, "Cell<T>::get") and sym_arg(strip_sym(strip_sym(d)[2][0])) is not None
+
+    def is_try_load(d):
+        return sym_is_call(d, "RecorderOnceCell::try_load") and _mentions_const(d, GLOBAL)
+
+    found = {"local": None, "global": None, "noop": None}
+    for c, a in user_calls:
+        tup = strip_sym(a[1])
+        payload = strip_sym(tup[3][0]) if tup[0] == "agg" and tup[3] else tup
+        g = gates(c.body, c.bb)
+        some_get = any(lab == "Some" and is_get(d) for d, lab in g)
+        none_get = any(lab == "None" and is_get(d) for d, lab in g)
+        some_tl = any(lab == "Some" and is_try_load(d) for d, lab in g)
+        none_tl = any(lab == "None" and is_try_load(d) for d, lab in g)
+        p = sym_through(payload, "NonNull<T>::as_ref")
+        if p[0] == "field" and p[2] == "0":
+            p = strip_sym(p[1])
+        if some_get and p[0] == "downcast" and p[2] == "Some" and is_get(p[1]):
+            found["local"] = c
+        elif none_get and some_tl and p[0] == "downcast" and p[2] == "Some" and is_try_load(p[1]):
+            found["global"] = c
+        elif none_get and none_tl and _mentions_const(payload, NOOP):
+            found["noop"] = c
+    tls = [c for c in nonforeign_calls(wr) if c.is_("RecorderOnceCell::try_load")]
+    gated = len(tls) == 1 and any(lab == "None" and is_get(d) for d, lab in gates(tls[0].body, tls[0].bb))
+    return {"n_user_calls": len(user_calls), "found": found, "try_loads": tls, "try_load_gated": gated}
+
+
 def run(ctx):
     chk = ctx.check
     m = ctx.crate("metrics")
     crate_stats(chk, m)
     chk.rule("C01.a", "ORD+provenance precedence: in with_recorder the user closure is called on exactly three leaves: Some(local) -> that payload; else Some(global via try_load) -> that payload; else the static NOOP_RECORDER; try_load only on the no-local edge", floor=4)
-    chk.rule("C01.b", "OWN+MPT save/restore: LocalRecorderGuard::new stores the value returned by Cell::replace(Some(ptr)) into prev_recorder; Drop replaces with self.prev_recorder; only new/drop/with_recorder touch LOCAL_RECORDER; in with_local_recorder the guard is dropped after f() on the normal path and on f()'s unwind edge, never before", floor=5)
+    chk.rule("C01.b", "OWN+MPT save/restore: LocalRecorderGuard::new stores the value returned by Cell::replace(Some(ptr)) into prev_recorder; Drop replaces with self.prev_recorder; only new/drop/with_recorder touch LOCAL_RECORDER; in with_local_recorder the guard is dropped after f() on the normal path and on f()'s unwind edge, never before", floor=6)
     chk.rule("C01.c", "TYPE+item facts thread confinement: LOCAL_RECORDER is a thread_local LocalKey<Cell<Option<NonNull<dyn Recorder>>>>; the guard is !Send (E0277 witness); local installation accepts non-Sync non-'static recorders", floor=4)
     chk.rule("C01.d", "TYPE borrow scoping: a guard cannot outlive its recorder (E0597 witness + twin); LocalRecorderGuard::new is private; with_local_recorder never returns the guard", floor=4)
     chk.rule("C01.e", "WMC scoped-pointer escape: a safe public function that installs a lifetime-erased pointer in TLS must not hand the clearing guard to its caller: the FIFO-drop and mem::forget witnesses must fail to compile", floor=2)
@@ -57,50 +96,16 @@ def run(ctx):
         outer = calls_to(wr, "LocalKey<T>::with")
         ok_outer = len(outer) == 1 and outer[0].fn is wr and _mentions_const(arg_syms(outer[0])[0], LOCAL)
         chk.ob("C01.a", f"{wr.path} [enters LOCAL_RECORDER.with]", ok_outer, "LOCAL_RECORDER.with(closure)" if ok_outer else "with_recorder does not run its body under LOCAL_RECORDER.with", wr.loc())
-        user_calls = []
-        for c in nonforeign_calls(wr):
-            if c.is_("FnOnce::call_once", "FnOnce<Args>::call_once"):
-                a = arg_syms(c)
-                root = strip_sym(a[0])
-                if sym_arg(root) is not None and sym_arg(root)[0] == 0:
-                    user_calls.append((c, a))
-        if len(user_calls) != 3:
-            chk.ob("C01.a", f"{wr.path} [three leaves]", False, f"expected the user closure to be invoked on exactly 3 leaves (local/global/noop), found {len(user_calls)}", wr.loc())
+        res = with_recorder_leaves(wr)
+        if res["n_user_calls"] != 3:
+            chk.ob("C01.a", f"{wr.path} [three leaves]", False, f"expected the user closure to be invoked on exactly 3 leaves (local/global/noop), found {res['n_user_calls']}", wr.loc())
         else:
-            leaves = {}
-            for c, a in user_calls:
-                tup = strip_sym(a[1])
-                payload = strip_sym(tup[3][0]) if tup[0] == "agg" and tup[3] else tup
-                g = gates(c.body, c.bb)
-                leaves[c.bb] = (c, payload, g)
-
-            def is_get(d):
-                return sym_is_call(d, "Cell<T>::get") and sym_arg(strip_sym(strip_sym(d)[2][0])) is not None
-
-            def is_try_load(d):
-                return sym_is_call(d, "RecorderOnceCell::try_load") and _mentions_const(d, GLOBAL)
-
-            found = {"local": None, "global": None, "noop": None}
-            for bb, (c, payload, g) in leaves.items():
-                some_get = any(lab == "Some" and is_get(d) for d, lab in g)
-                none_get = any(lab == "None" and is_get(d) for d, lab in g)
-                some_tl = any(lab == "Some" and is_try_load(d) for d, lab in g)
-                none_tl = any(lab == "None" and is_try_load(d) for d, lab in g)
-                p = sym_through(payload, "NonNull<T>::as_ref")
-                if p[0] == "field" and p[2] == "0":
-                    p = strip_sym(p[1])
-                if some_get and p[0] == "downcast" and p[2] == "Some" and is_get(p[1]):
-                    found["local"] = c
-                elif none_get and some_tl and p[0] == "downcast" and p[2] == "Some" and is_try_load(p[1]):
-                    found["global"] = c
-                elif none_get and none_tl and _mentions_const(payload, NOOP):
-                    found["noop"] = c
+            found = res["found"]
             for leaf, want in (("local", "Some(local) edge -> f(local payload)"), ("global", "no local, Some(global) edge -> f(try_load payload)"), ("noop", "neither -> f(&NOOP_RECORDER)")):
                 c = found[leaf]
                 chk.ob("C01.a", f"{wr.path} [{leaf} leaf]", c is not None, want if c else f"no call of the user closure matches: {want}", c.loc() if c else wr.loc())
-            # try_load only on the None edge of the local test
-            tls = [c for c in nonforeign_calls(wr) if c.is_("RecorderOnceCell::try_load")]
-            ok = len(tls) == 1 and any(lab == "None" and is_get(d) for d, lab in gates(tls[0].body, tls[0].bb))
+            tls = res["try_loads"]
+            ok = res["try_load_gated"]
             chk.ob("C01.a", f"{wr.path} [global consulted only without a local]", ok, "try_load is reached only on the no-local edge" if ok else "the global recorder is consulted before/independently of the local one", tls[0].loc() if tls else wr.loc())
 
     # ---------------- C01.b
@@ -139,6 +144,10 @@ def run(ctx):
             ok = "'prev_recorder'" in txt and v[0] == "field"
             why = f"drop installs {sym_str(a[1])}"
         chk.ob("C01.b", f"{dropf.path} [restore]", ok, "drop replaces the TLS slot with self.prev_recorder" if ok else f"drop does not restore the saved pointer: {why}", dropf.loc())
+        if len(outer) == 1:
+            b = dropf.body
+            skipping = [r for r in b.return_blocks() if r in b.reachable(0, cut={outer[0].bb})]
+            chk.ob("C01.b", f"{dropf.path} [restore on every path]", not skipping, "every path through drop performs the restore (also while unwinding)" if not skipping else "a path through drop returns without restoring the previous recorder (conditional restore, e.g. skipped while panicking)", dropf.loc())
     # who may touch LOCAL_RECORDER
     users = set()
     for f in m.fns:
